@@ -229,6 +229,18 @@ impl Runner {
             2 => vec![],
             _ => ACTOR_NAMES.iter().map(|a| self.actor(a)).collect(),
         };
+        let mut whitelist = whitelist;
+        // whitelist entries are unchecked strings: some are not well-formed addresses
+        if self.rng.chance(12, 100) {
+            for _ in 0..self.rng.range(1, 3) {
+                let bad = self
+                    .rng
+                    .pick(&["", "ab", "LPONE", "Owner", "lp one", "lpone ", "y".repeat(60).as_str()])
+                    .to_string();
+                let at = self.rng.pick_idx(whitelist.len() + 1);
+                whitelist.insert(at, AddrRef::Raw(bad));
+            }
+        }
         let mins = match self.rng.weighted(&[60, 20, 20]) {
             0 => (0, 0),
             1 => (1, 1),
@@ -410,8 +422,10 @@ impl Runner {
         let (r0, r1, s) = self.pair_state(pair);
         let sender: String = if s == 0 {
             // mostly a whitelisted caller
-            if !p.whitelist.is_empty() && self.rng.chance(if setup { 97 } else { 75 }, 100) {
-                self.rng.pick(&p.whitelist).clone()
+            let wl: Vec<String> =
+                p.whitelist.iter().filter(|w| self.sim.model.actors.contains(w)).cloned().collect();
+            if !wl.is_empty() && self.rng.chance(if setup { 97 } else { 75 }, 100) {
+                self.rng.pick(&wl).clone()
             } else {
                 self.random_actor()
             }
